@@ -382,6 +382,20 @@ let c19 s b =
 
 
 
+
+(* ---- C09: task counts of the raster fan-out and of the octree expansion -------------- *)
+let c09 s b =
+  match next_tok s with
+  | "raster" ->
+    let w = next_nat s in let h = next_nat s in
+    let n = next s in
+    let tiles = times n (fun () -> next_nat s) in
+    Printf.bprintf b "tasks %d" (int_of_nat (raster_task_count w h tiles))
+  | "octree" ->
+    let depth = next_nat s in let threads = next_nat s in
+    Printf.bprintf b "tasks %d" (int_of_nat (octree_task_count depth threads))
+  | _ -> Printf.bprintf b "-"
+
 (* ---- C14: shape evaluation: transform, slot filling by identity, tape run ------------ *)
 let c14 s b =
   let arena = parse_arena s in
@@ -577,6 +591,7 @@ let dispatch cmd s b =
   | "c19" -> c19 s b
   | "c18" -> c18 s b
   | "c14" -> c14 s b
+  | "c09" -> c09 s b
   | "bcval" -> cmd_bcval s b
   | "c20" -> c20 s b
   | "c04" -> c04 s b
